@@ -274,6 +274,12 @@ pub enum Forgery {
     SigSPlusL,
     /// the same for CERT.SIG
     CertSigSPlusL,
+    /// a replayed genuine response with an extra, unsigned top-level ROOT (and INDX/PATH) fitting
+    /// the new request: only what is inside the signed SREP counts
+    ReplayWithUnsignedTopLevelRoot,
+    /// midpoint outside the (correctly signed) delegation window, "healed" by unsigned top-level
+    /// MINT / MAXT / MIDP tags
+    WindowHealedByUnsignedTopLevelTags,
 }
 
 /// (R, S) -> (R, S + L): verifies under cofactorless "legacy" arithmetic, not under RFC 8032
@@ -291,7 +297,9 @@ fn s_plus_l(sig: &mut [u8]) -> bool {
     carry == 0
 }
 
-pub const ALL_FORGERIES: [Forgery; 33] = [
+pub const ALL_FORGERIES: [Forgery; 35] = [
+    Forgery::ReplayWithUnsignedTopLevelRoot,
+    Forgery::WindowHealedByUnsignedTopLevelTags,
     Forgery::SigSPlusL,
     Forgery::CertSigSPlusL,
     Forgery::SigFlip,
@@ -565,6 +573,46 @@ impl<'a> Forger<'a> {
                 parts.dele.set(MAXT, &maxt.to_le_bytes());
                 parts.resign_dele(&self.srv.lt(), p);
                 (parts.assemble(), format!("MIDP {} one unit outside the correctly signed window [{}, {}]", b.midp, mint, maxt))
+            }
+            Forgery::ReplayWithUnsignedTopLevelRoot => {
+                if self.earlier_genuine.is_empty() {
+                    return None;
+                }
+                let old = rng.pick(&self.earlier_genuine).clone();
+                let payload = if p == Proto::Ietf { crate::refimpl::codec::unframe(&old).ok()?.to_vec() } else { old };
+                let mut m = RefMsg::decode(&payload).ok()?;
+                let leaf: &[u8] = if p == Proto::Classic { &cr.nonce } else { cr.packet };
+                m.set(ROOT, &crate::refimpl::crypto::hash_leaf(p, leaf));
+                m.set(INDX, &0u32.to_le_bytes());
+                m.set(PATH, &[]);
+                if m.get(NONC).is_some() {
+                    m.set(NONC, &cr.nonce);
+                }
+                let d = if p == Proto::Ietf { crate::refimpl::codec::frame(&m.encode()) } else { m.encode() };
+                (d, "replayed genuine response plus an unsigned top-level ROOT = leaf hash of the new request (INDX 0, empty PATH)".into())
+            }
+            Forgery::WindowHealedByUnsignedTopLevelTags => {
+                let (mint, maxt) = if rng.chance(1, 2) { (b.midp + 1 + rng.below(1000), u64::MAX) } else { (0, b.midp - 1 - rng.below(1000).min(b.midp - 1)) };
+                parts.dele.set(MINT, &mint.to_le_bytes());
+                parts.dele.set(MAXT, &maxt.to_le_bytes());
+                parts.resign_dele(&self.srv.lt(), p);
+                let d0 = parts.assemble();
+                let payload = if p == Proto::Ietf { crate::refimpl::codec::unframe(&d0).ok()?.to_vec() } else { d0 };
+                let mut m = RefMsg::decode(&payload).ok()?;
+                match rng.below(3) {
+                    0 => {
+                        m.set(MINT, &0u64.to_le_bytes());
+                        m.set(MAXT, &u64::MAX.to_le_bytes());
+                    }
+                    1 => m.set(MIDP, &(if mint > b.midp { mint + 1 } else { maxt.saturating_sub(1) }).to_le_bytes()),
+                    _ => {
+                        m.set(MINT, &0u64.to_le_bytes());
+                        m.set(MAXT, &u64::MAX.to_le_bytes());
+                        m.set(MIDP, &b.midp.to_le_bytes());
+                    }
+                }
+                let d = if p == Proto::Ietf { crate::refimpl::codec::frame(&m.encode()) } else { m.encode() };
+                (d, format!("MIDP {} outside the signed window [{}, {}], with unsigned top-level MINT/MAXT/MIDP that would fit", b.midp, mint, maxt))
             }
             Forgery::SigSPlusL => {
                 if !s_plus_l(&mut parts.sig) {
@@ -1204,6 +1252,33 @@ fn real_server_part(ctx: &Ctx, out: &mut Out, rng: &mut Rng) {
             out.inconclusive("real server did not start");
             continue;
         };
+        // neighbours: other clients of the same server, one of them on a well-known source port,
+        // keep sending while the project's client runs, so that its requests share batches with theirs
+        let nb_stop = std::sync::Arc::new(std::sync::atomic::AtomicBool::new(false));
+        let neighbours: Vec<_> = (0..2u64)
+            .map(|i| {
+                let stop = nb_stop.clone();
+                let port = sp.cfg.port;
+                let s0 = rng.next_u64();
+                std::thread::spawn(move || {
+                    let mut r = Rng::new(s0);
+                    let sock = if i == 0 { crate::inproc::client_socket_low_port() } else { None }.unwrap_or_else(|| std::net::UdpSocket::bind("127.0.0.1:0").unwrap());
+                    let _ = sock.set_nonblocking(true);
+                    let addr: std::net::SocketAddr = format!("127.0.0.1:{}", port).parse().unwrap();
+                    let mut buf = vec![0u8; 4096];
+                    let mut n = 0u64;
+                    while !stop.load(std::sync::atomic::Ordering::Relaxed) {
+                        let p = if r.chance(1, 2) { Proto::Classic } else { Proto::Ietf };
+                        let (pkt, _) = make_request(&mut r, p, None);
+                        let _ = sock.send_to(&pkt, addr);
+                        n += 1;
+                        while sock.recv_from(&mut buf).is_ok() {}
+                        std::thread::sleep(Duration::from_micros(150 + r.below(300)));
+                    }
+                    n
+                })
+            })
+            .collect();
         for proto in [Proto::Classic, Proto::Ietf] {
             for (enc, n) in [(KeyEnc::Hex, 64usize), (KeyEnc::None, 7), (KeyEnc::B64, rng.range(1, 64) as usize), (KeyEnc::HexUpper, 3)] {
                 let mut args: Vec<String> = vec!["127.0.0.1".into(), sp.cfg.port.to_string(), "-p".into(), if proto == Proto::Classic { "0".into() } else { "13".into() }, "-z".into(), "-t".into(), "4".into(), "-n".into(), n.to_string(), "-f".into(), "T=%s.%f".into(), "-j".into()];
@@ -1267,6 +1342,10 @@ fn real_server_part(ctx: &Ctx, out: &mut Out, rng: &mut Rng) {
                     }
                 }
             }
+        }
+        nb_stop.store(true, std::sync::atomic::Ordering::Relaxed);
+        for h in neighbours {
+            out.obs("real_server_neighbour_requests", h.join().unwrap_or(0) as i64);
         }
         sp.signal(libc::SIGTERM);
         let _ = sp.wait_exit(Duration::from_secs(5));
